@@ -18,15 +18,16 @@ impl Resolver<'_> {
             // also where a default namespace applies (table references): a declaration of the
             // enclosing modules takes precedence over inferring a table of that name.
             let mut found = None;
-            if !self.current_module_path.is_empty() && ident.name != "*" {
-                let mut rel = ident.clone().prepend(self.current_module_path.clone());
-                for _ in 0..self.current_module_path.len() {
+            if ident.name != "*" {
+                // the current module, then its parent, and so on up to (not including) the root
+                let path = self.current_module_path.clone();
+                for n in (1..=path.len()).rev() {
+                    let rel = ident.clone().prepend(path[..n].to_vec());
                     let decls = self.root_mod.module.lookup(&rel);
                     if decls.len() == 1 {
                         found = decls.into_iter().next();
                         break;
                     }
-                    rel = rel.pop_front().1.unwrap();
                 }
             }
             match found {
@@ -34,15 +35,15 @@ impl Resolver<'_> {
                 None => self.resolve_ident_core(ident, Some(&default_namespace)),
             }
         } else {
-            let mut ident = ident.clone().prepend(self.current_module_path.clone());
-
-            let mut res = self.resolve_ident_core(&ident, None);
-            for _ in 0..self.current_module_path.len() {
+            // relative to the current module, then to its parent, and so on up to the root
+            // (dropping the innermost module each time, not the outermost one)
+            let path = self.current_module_path.clone();
+            let mut res = self.resolve_ident_core(&ident.clone().prepend(path.clone()), None);
+            for n in (0..path.len()).rev() {
                 if res.is_ok() {
                     break;
                 }
-                ident = ident.pop_front().1.unwrap();
-                res = self.resolve_ident_core(&ident, None);
+                res = self.resolve_ident_core(&ident.clone().prepend(path[..n].to_vec()), None);
             }
             res
         };
